@@ -286,6 +286,38 @@ def run(F, rep):
                     rep.ob("C04-D4", "the contig phase appends to the worker's own raw-segment buffer (indexed by worker_id)",
                            contains(e, lambda x: x == ("param", "worker_id")), detail=fmt(e), site=site_of(w, t), key="C04-D4 | worker | own raw buffer")
 
+    # ------------------------------------------------------------ D9: bytes reach the file from one thread at a time
+    # The order of parts in the file is the order of the calls that write them.  A function that writes to the archive
+    # file (write_all / flush on the writer, directly) may therefore execute only where one thread runs: worker 0
+    # between barriers, finalize after the joins, the constructor.  Buffering calls made by all workers in parallel are
+    # fine exactly as long as they cannot reach such a function.
+    nwr = 0
+    for k in sorted(F.funcs):
+        f = F.funcs[k]
+        if not k.startswith("ragc_common::archive::Archive::") or f.kind == "promoted":
+            continue
+        wsites = [(bi, t) for bi, t in f.calls() if not t.get("indirect") and re.search(r"io::Write>::(write_all|write|flush)$|io::Write::(write_all|write|flush)$", t.get("decl", "") + "|" + t["callee"])]
+        if not wsites:
+            continue
+        nwr += 1
+        cx = ctxs.get(k, set())
+        bad = sorted(c for c in cx if c.startswith("W") and c.endswith("p"))
+        path = None
+        if bad and WP.ok:
+            # a witness: a call site of the worker in a parallel phase that reaches this function
+            w = WP.worker
+            for bi, t in w.calls():
+                if t.get("indirect") or not (WP.phase_of_block(bi) & set(bad)):
+                    continue
+                pth = G.path(t["callee"], lambda z: z == k) if t["callee"] in F.funcs else None
+                if pth:
+                    path = "%s: %s" % (site_of(w, t), " -> ".join(x.rsplit("::", 1)[-1] for x in pth))
+                    break
+        rep.ob("C04-D9", "%s (writes to the archive file) runs on one thread at a time" % k.split("::", 1)[-1], not bad,
+               detail="contexts %s" % sorted(cx) if not bad else "reachable from code that all workers run in parallel (%s): the order of parts in the file depends on thread timing; e.g. %s" % (bad, path),
+               site=site_of(f, wsites[0][1]), key="C04-D9 | %s | single-threaded file writes" % k)
+    rep.floor("C04-D9", nwr, 2, "Archive functions that write to the file (add_part, serialize/close)")
+
     # ------------------------------------------------------------ D5
     for name in ("ParallelFlushState::claim_next_idx", "BufferedSegPart::get_vec_id"):
         f = F.funcs.get(pipeline.CORE + name)
